@@ -2,9 +2,9 @@ package props
 
 import (
 	"fmt"
-	"strings"
 	"go/token"
 	"go/types"
+	"strings"
 
 	"golang.org/x/tools/go/ssa"
 
@@ -43,6 +43,8 @@ func checkC07(c *chk.Ctx) {
 	ruleQueuedContinuationsUnderLock(h, "R07e")
 	ruleReusedDecodeTargetReset(h, "R07f")
 	ruleR06dInto(h, "R07g", false)
+	h.Rule("R07h", "K3", "the follower's applied commit offset is only assigned from DB.ReadCommitOffset or from the offset of an entry it has just applied (shared with R06e)", 2)
+	ruleAppliedOffsetProvenance(h, "R07h")
 }
 
 func ruleR07a(h *H, rule string) {
@@ -107,6 +109,12 @@ func ruleR07a(h *H, rule string) {
 				if r, _ := ir.Reach(ir.Search{From: commit}, ir.Is(ci)); r {
 					okStep, why = false, "the step can run after the Commit"
 				}
+				// an extracted helper: the mutating steps inside it must make the helper fail
+				if okStep && ir.SingleCallSite(f) == ci && f.Blocks != nil {
+					if w2 := innerStepsFail(h, f, batch, 0); w2 != "" {
+						okStep, why = false, w2
+					}
+				}
 				h.Verdict(okStep, rule, fmt.Sprintf("%s: mutation step #%d (%s) before commit", name, n, f.Name()), h.pos(ci), "precedes the Commit, which is not reached when the step fails", "the batch can be committed although this step failed, or the step runs after the commit: "+why, witness(path))
 			}
 		})
@@ -130,8 +138,11 @@ func ruleR07a(h *H, rule string) {
 					return sd
 				}
 				ok := true
+				if res := f.Signature.Results(); res.Len() == 0 || !ir.IsError(res.At(res.Len()-1).Type()) {
+					return false // the helper cannot report a failed step to ProcessWrite
+				}
 				ir.Instrs(f, func(in ssa.Instruction) {
-					if ret, isRet := in.(*ssa.Return); isRet && mayReturnNilError(ret) && ir.Canon(ir.ReturnValues(ret)[len(ret.Results)-1]) != ci.(ssa.Value) {
+					if ret, isRet := in.(*ssa.Return); isRet && len(ret.Results) > 0 && mayReturnNilError(ret) && ir.Canon(ir.ReturnValues(ret)[len(ret.Results)-1]) != ci.(ssa.Value) {
 						if sd, _, _ := ir.SuccessDominated(ci, ret); !sd {
 							ok = false
 						}
@@ -516,4 +527,63 @@ func ruleQueuedContinuationsUnderLock(h *H, rule string) {
 func loadsFieldNamed(v ssa.Value, field string) bool {
 	r, ok := ir.FieldLoadOf(ir.Canon(v))
 	return ok && r.Field == field
+}
+
+// innerStepsFail: inside an extracted helper of ProcessWrite every step that writes into
+// the request's batch and can fail must make the helper return an error (so that the
+// caller, which is checked to stop before Commit when the helper fails, never commits a
+// partially built batch). Returns "" when that holds.
+func innerStepsFail(h *H, g *ssa.Function, batch ssa.Value, depth int) string {
+	res := g.Signature.Results()
+	reports := res.Len() > 0 && ir.IsError(res.At(res.Len()-1).Type())
+	bad := ""
+	ir.Instrs(g, func(in ssa.Instruction) {
+		ci, ok := in.(ssa.CallInstruction)
+		if !ok || bad != "" {
+			return
+		}
+		callee := ci.Common().StaticCallee()
+		if callee == nil || !ir.InRepo(callee) {
+			return
+		}
+		gets := false
+		for _, a := range ci.Common().Args {
+			if ir.CanonX(a) == batch {
+				gets = true
+			}
+		}
+		if !gets || !ir.HasErrResult(ci) {
+			return
+		}
+		if reaches, _ := h.P.StaticReaches(callee, h.P.MatchPred(batchPut, batchDelete, batchDelRange)); !reaches {
+			return
+		}
+		ev := ir.ErrResult(ci)
+		switch {
+		case ev == nil:
+			bad = "inside " + ir.FuncName(g) + " the error of " + ir.FuncName(callee) + " is discarded"
+		case !reports:
+			bad = ir.FuncName(g) + " cannot report the failure of " + ir.FuncName(callee) + " to ProcessWrite"
+		default:
+			ir.Instrs(g, func(x ssa.Instruction) {
+				ret, isRet := x.(*ssa.Return)
+				if !isRet || bad != "" || len(ret.Results) == 0 || !mayReturnNilError(ret) {
+					return
+				}
+				if ir.Canon(ir.ReturnValues(ret)[len(ret.Results)-1]) == ci.(ssa.Value) {
+					return // returns the step's own error
+				}
+				if r, _ := ir.Reach(ir.Search{From: ci}, ir.Is(ret)); !r {
+					return // this return cannot follow the step
+				}
+				if okOnly, _ := ir.OkOnly(g, ev, ci, ret); !okOnly {
+					bad = "inside " + ir.FuncName(g) + " a success return is reachable after " + ir.FuncName(callee) + " failed"
+				}
+			})
+		}
+		if bad == "" && depth < 2 && ir.SingleCallSite(callee) == ci {
+			bad = innerStepsFail(h, callee, batch, depth+1)
+		}
+	})
+	return bad
 }
